@@ -29,12 +29,13 @@ ASSUMPTIONS = [
 NOT_REACHED = ['agent/service nodes are removed from the node list by the resource manager (C18), the '
                'scheduler never sees them; NumaNode placement path']
 normalise = schedgen.normalise
-BUDGET = {'quick': 100, 'thorough': 1500}
+BUDGET = {'quick': 160, 'thorough': 1500}
 
 
 def parts(tier):
     T = (tier == 'thorough')      # thorough: larger layouts, longer histories
     return [
+        Part('reserved_nodes', c01_reserved.cases(), quick=150, thorough=1500),
         Part('continuous', schedgen.histories(max_ops=40 if not T else 80, big=T), quick=170, thorough=1000),
         Part('lfs_mem_heavy', schedgen.histories(max_ops=25 if not T else 50, big=T, heavy=True, app=False), quick=60, thorough=300),
         Part('gpu_shares_blocked_gpus', schedgen.histories(max_ops=20 if not T else 40, big=T, app=False, gpu_focus=True), quick=50, thorough=300),
@@ -44,7 +45,6 @@ def parts(tier):
         Part('nodelist', nodelistsim.nl_cases(), quick=250, thorough=2500),
         Part('nodelist_numa', nodelistsim.numa_cases(), quick=80, thorough=600),
         Part('nodelist_concurrent', nodelistsim.mt_cases(), quick=150, thorough=1500),
-        Part('reserved_nodes', c01_reserved.cases(), quick=150, thorough=1500),
     ]
 
 
